@@ -56,14 +56,16 @@ func (o *Op) UnmarshalJSON(b []byte) error {
 }
 
 type History struct {
-	ID      int       `json:"id"`
-	Cached  bool      `json:"cached"`
-	Mods    []ModSpec `json:"mods"`
-	Ops     []Op      `json:"ops"`
-	Cut     int       `json:"cut"` // execute steps [0, Cut); -1 = all
-	Witness string    `json:"witness,omitempty"`
-	NoChurn bool      `json:"nochurn,omitempty"` // do not re-use freed size classes after a collection
-	Probe   string    `json:"probe,omitempty"`   // fixed hand-written witness instead of a generated history
+	ID     int       `json:"id"`
+	Cached bool      `json:"cached"`
+	Mods   []ModSpec `json:"mods"`
+	Ops    []Op      `json:"ops"`
+	Cut    int       `json:"cut"` // execute steps [0, Cut); -1 = all
+	// Cuts: per engine ("interp"/"compiler") override of Cut: the engines differ in one edge of the model (GlobalInstance.Me)
+	Cuts    map[string]int `json:"cuts,omitempty"`
+	Witness string         `json:"witness,omitempty"`
+	NoChurn bool           `json:"nochurn,omitempty"` // do not re-use freed size classes after a collection
+	Probe   string         `json:"probe,omitempty"`   // fixed hand-written witness instead of a generated history
 }
 
 type Result struct {
@@ -90,6 +92,9 @@ type world struct {
 	cms   []wazero.CompiledModule
 	insts []api.Module
 	hook  func()
+	// kept: handles that a later compile/instantiate of the same module replaced. Only the TWIN keeps them (there
+	// nothing is ever closed, dropped or collected); in the main world a replaced handle is a dropped handle.
+	kept []any
 }
 
 func newWorld(ctx context.Context, engine string, cached bool, n int) *world {
@@ -224,6 +229,9 @@ func child(engine string) {
 	}
 	debug.SetMemoryLimit(1 << 30)
 	ctx := context.Background()
+	if k, ok := h.Cuts[engine]; ok {
+		h.Cut = k
+	}
 	noChurn = h.NoChurn
 	if h.Probe != "" {
 		probe(ctx, engine, &h)
@@ -276,6 +284,57 @@ func child(engine string) {
 		return "ok"
 	}
 
+	// tiny(k): (module (func (export "f") (result i32) i32.const 7000+k)): unrelated to every module of the history
+	tiny := func(k int) []byte {
+		w := &c.Mod{}
+		w.Types = [][]byte{c.FT(nil, c.B(c.I32))}
+		w.Funcs = [][]byte{c.U32(0)}
+		w.Exports = [][]byte{c.Export("f", 0, 0)}
+		w.Codes = [][]byte{c.Code(nil, c.I32Const(int32(7000+k)))}
+		return w.Bytes()
+	}
+	// extra: compile and instantiate n more (unrelated, distinct) modules on the runtime's engine, call them, close them
+	// and their compiled modules. Compiling overwrites vacated slots of the engine's sorted list of compiled modules,
+	// which otherwise keep the executables of closed modules reachable (and hide dangling code).
+	extra := func(w *world, n, id0 int) (out string) {
+		defer func() {
+			if e := recover(); e != nil {
+				out = fmt.Sprint("e:PANIC:", e)
+			}
+		}()
+		if w.rt == nil {
+			return "e:nohandle"
+		}
+		var cms []wazero.CompiledModule
+		var ins []api.Module
+		out = "ok"
+		for k := 0; k < n; k++ {
+			cm, err := w.rt.CompileModule(ctx, tiny(id0+k))
+			if err != nil {
+				out = "e:" + errClass(err)
+				break
+			}
+			cms = append(cms, cm)
+			mod, err := w.rt.InstantiateModule(ctx, cm, wazero.NewModuleConfig().WithName(""))
+			if err != nil {
+				out = "e:" + errClass(err)
+				break
+			}
+			ins = append(ins, mod)
+			res, err := mod.ExportedFunction("f").Call(ctx)
+			if err != nil || len(res) != 1 || res[0] != uint64(7000+id0+k) {
+				out = fmt.Sprint("e:other:tiny module returned ", res, err)
+			}
+		}
+		for _, mod := range ins {
+			mod.Close(ctx)
+		}
+		for _, cm := range cms {
+			cm.Close(ctx)
+		}
+		return out
+	}
+
 	var exec func(i, stop int) int
 	// one step on the main world and (unless it closes/drops/collects) on the twin
 	exec = func(i, stop int) int {
@@ -295,6 +354,9 @@ func child(engine string) {
 			case "compile":
 				obs[i] = compile(mw, a[0])
 				if obs[i] == "ok" {
+					if old := tw.cms[a[0]]; old != nil {
+						tw.kept = append(tw.kept, old)
+					}
 					twin[i] = compile(tw, a[0])
 				}
 			case "inst":
@@ -304,6 +366,7 @@ func child(engine string) {
 					// referenced by its importers and is never collected: no GC is forced on the twin's behalf)
 					if old := tw.insts[a[0]]; old != nil {
 						old.Close(ctx)
+						tw.kept = append(tw.kept, old)
 					}
 					twin[i] = inst(tw, a[0])
 				} else if obs[i] == "e:refused:name" && tw.insts[a[0]] != nil {
@@ -336,6 +399,13 @@ func child(engine string) {
 				both(fmt.Sprintf("clr%d", a[1]), a[0], uint64(a[2]))
 			case "pass":
 				both(fmt.Sprintf("pass%d_%d", a[1], a[2]), a[0], uint64(a[3]))
+			case "gp": // m, global holder ts, q, slot: the value of the global goes to imps[q] as a parameter
+				both(fmt.Sprintf("gp%d_%d", a[1], a[2]), a[0], uint64(a[3]))
+			case "xc": // n, id0: n more unrelated modules are compiled, instantiated, called and closed
+				obs[i] = extra(mw, a[0], a[1])
+				if obs[i] == "ok" {
+					twin[i] = extra(tw, a[0], a[1])
+				}
 			case "mu": // m, path (-1 own code, q imported accessor), kind, a1, a2
 				name, args := memCall(&h.Mods[a[0]], a[1], a[2], a[3], a[4], "")
 				both(name, a[0], args...)
@@ -422,7 +492,7 @@ func child(engine string) {
 				obs[i], twin[i] = "e:badop", "e:badop"
 			}
 			switch o.K {
-			case "closemod", "closecm", "closecache", "closert", "dropmod", "dropcm", "droprt", "dropcache":
+			case "closemod", "closecm", "closecache", "closert", "dropmod", "dropcm", "droprt", "dropcache", "xc":
 				forceGC(1)
 			}
 			i++
